@@ -65,7 +65,7 @@ fn getter_len(v: Option<&str>) -> Option<usize> { v.map(|s| s.len()) }
 
 const U: &str = "8IndexMap.*4iter0E.*\\.0 :8;write_unchecked_to\\.\\d+ :8";
 
-// @verif prop=C03 tier=quick mem=16 unwindset="write_unchecked_to\.\d+ :8" bounds="ops: set(Server,a); remove(Server); set(Server,b); |a|=2, |b|=3, contents symbolic"
+// @verif prop=C03 tier=quick mem=10 unwindset="write_unchecked_to\.\d+ :8" bounds="ops: set(Server,a); remove(Server); set(Server,b); |a|=2, |b|=3, contents symbolic"
 #[kani::proof]
 #[kani::stub(ohkami::util::unix_timestamp, stubs::unix_timestamp_zero)]
 #[kani::unwind(12)]
@@ -82,7 +82,7 @@ fn c03_set_remove_set() {
     std::mem::forget(res);
 }
 
-// @verif prop=C03 tier=quick mem=16 unwindset="write_unchecked_to\.\d+ :8" bounds="ops: set(Server,a); set(Server,b); remove(Vary) absent; set(Vary,c); remove(Server); |a|=1,|b|=4,|c|=2"
+// @verif prop=C03 tier=quick mem=10 unwindset="write_unchecked_to\.\d+ :8" bounds="ops: set(Server,a); set(Server,b); remove(Vary) absent; set(Vary,c); remove(Server); |a|=1,|b|=4,|c|=2"
 #[kani::proof]
 #[kani::stub(ohkami::util::unix_timestamp, stubs::unix_timestamp_zero)]
 #[kani::unwind(12)]
@@ -101,7 +101,7 @@ fn c03_overwrite_remove_absent_remove() {
     std::mem::forget(res);
 }
 
-// @verif prop=C03 tier=quick mem=16 unwindset="write_unchecked_to\.\d+ :8" bounds="ops: append(Vary,a); append(Vary,b); append(Vary,c); |a|=1,|b|=2,|c|=3"
+// @verif prop=C03 tier=quick mem=10 unwindset="write_unchecked_to\.\d+ :8" bounds="ops: append(Vary,a); append(Vary,b); append(Vary,c); |a|=1,|b|=2,|c|=3"
 #[kani::proof]
 #[kani::stub(ohkami::util::unix_timestamp, stubs::unix_timestamp_zero)]
 #[kani::unwind(12)]
@@ -117,7 +117,7 @@ fn c03_append_thrice() {
     std::mem::forget(res);
 }
 
-// @verif prop=C03 tier=quick mem=16 unwindset="write_unchecked_to\.\d+ :8" bounds="ops: set(Server,String a); append(Server,b); remove(Server); append(Server,c); append(Server,d); |a|=2,|b|=1,|c|=3,|d|=1"
+// @verif prop=C03 tier=quick mem=10 unwindset="write_unchecked_to\.\d+ :8" bounds="ops: set(Server,String a); append(Server,b); remove(Server); append(Server,c); append(Server,d); |a|=2,|b|=1,|c|=3,|d|=1"
 #[kani::proof]
 #[kani::stub(ohkami::util::unix_timestamp, stubs::unix_timestamp_zero)]
 #[kani::unwind(12)]
@@ -135,7 +135,7 @@ fn c03_owned_append_remove_append() {
     std::mem::forget(res);
 }
 
-// @verif prop=C03 tier=quick mem=16 unwindset="write_unchecked_to\.\d+ :8;Range<usize> as std::iter::Iterator>::try_fold.*response::headers::Header,:49" bounds="ops: x(X-Custom,a); x remove; x(X-Custom,b); x append(c); |a|=3,|b|=2,|c|=1"
+// @verif prop=C03 tier=quick mem=10 unwindset="write_unchecked_to\.\d+ :8;Range<usize> as std::iter::Iterator>::try_fold.*response::headers::Header,:49" bounds="ops: x(X-Custom,a); x remove; x(X-Custom,b); x append(c); |a|=3,|b|=2,|c|=1"
 #[kani::proof]
 #[kani::stub(ohkami::util::unix_timestamp, stubs::unix_timestamp_zero)]
 #[kani::unwind(12)]
@@ -153,7 +153,7 @@ fn c03_custom_set_remove_set_append() {
     std::mem::forget(res);
 }
 
-// @verif prop=C03 tier=quick mem=16 unwindset="write_unchecked_to\.\d+ :8;Range<usize> as std::iter::Iterator>::try_fold.*response::headers::Header,:49" bounds="ops: x append(a) on absent; x(X-Custom,b) overwrite; x(X-Other,c); remove X-Custom; |a|=2,|b|=4,|c|=1"
+// @verif prop=C03 tier=thorough mem=10 unwindset="write_unchecked_to\.\d+ :8;Range<usize> as std::iter::Iterator>::try_fold.*response::headers::Header,:49" bounds="ops: x append(a) on absent; x(X-Custom,b) overwrite; x(X-Other,c); remove X-Custom; |a|=2,|b|=4,|c|=1"
 #[kani::proof]
 #[kani::stub(ohkami::util::unix_timestamp, stubs::unix_timestamp_zero)]
 #[kani::unwind(12)]
@@ -171,7 +171,7 @@ fn c03_custom_two_names() {
 }
 
 // ---- content rules -------------------------------------------------------------------------------
-// @verif prop=C03 tier=quick mem=16 unwindset="write_unchecked_to\.\d+ :8" bounds="with_text(a); drop_content(); with_text(b); |a|=2,|b|=3"
+// @verif prop=C03 tier=quick mem=10 unwindset="write_unchecked_to\.\d+ :8" bounds="with_text(a); drop_content(); with_text(b); |a|=2,|b|=3"
 #[kani::proof]
 #[kani::stub(ohkami::util::unix_timestamp, stubs::unix_timestamp_zero)]
 #[kani::unwind(12)]
@@ -189,7 +189,7 @@ fn c03_text_drop_text() {
     std::mem::forget(res);
 }
 
-// @verif prop=C03 tier=quick mem=16 unwindset="write_unchecked_to\.\d+ :8" bounds="204 with a 2-byte payload and a Server header: complete() strips body and Content-Length"
+// @verif prop=C03 tier=quick mem=10 unwindset="write_unchecked_to\.\d+ :8" bounds="204 with a 2-byte payload and a Server header: complete() strips body and Content-Length"
 #[kani::proof]
 #[kani::stub(ohkami::util::unix_timestamp, stubs::unix_timestamp_zero)]
 #[kani::unwind(12)]
@@ -207,7 +207,7 @@ fn c03_no_content_with_payload() {
     std::mem::forget(res);
 }
 
-// @verif prop=C03 tier=quick mem=16 unwindset="write_unchecked_to\.\d+ :8" bounds="status symbolic over {200,404,204}; no content; Server(a) |a|=2"
+// @verif prop=C03 tier=quick mem=10 unwindset="write_unchecked_to\.\d+ :8" bounds="status symbolic over {200,404,204}; no content; Server(a) |a|=2"
 #[kani::proof]
 #[kani::stub(ohkami::util::unix_timestamp, stubs::unix_timestamp_zero)]
 #[kani::unwind(12)]
@@ -229,27 +229,40 @@ fn c03_status_without_content() {
 // ---- send end to end --------------------------------------------------------------------------------
 fn send_len(res: Response) -> (usize, usize) {
     let reserved = v::response_declared_size(&res);
-    let mut w = FixedWriter::<256>::new();
-    block_on(v::response_send(res, &mut w), 2).expect("send completed");
-    assert!(!w.overflow, "harness writer too small");
-    (w.len, reserved)
+    let mut w = crate::support::io::CountWriter::new();
+    {
+        // polled where it was created: a future awaited from another `async` state machine loses every constant under CBMC
+        let mut fut = v::response_send(res, &mut w);
+        let done = crate::support::exec::block_on_in_place(&mut fut, 2);
+        assert!(done.is_some(), "send completed");
+        std::mem::forget(done);
+        std::mem::forget(fut);
+    }
+    (w.total, reserved)
 }
 
-// @verif prop=C03 tier=thorough mem=30 timeout=3000 unwindset="write_unchecked_to\.\d+ :8;9write_all.*8WriteAll.*6Future4poll.*\.0 :3" bounds="send: 200 with a 3-byte symbolic payload; 200 without content; HEAD-stripped"
-#[kani::proof]
-#[kani::stub(ohkami::util::unix_timestamp, stubs::unix_timestamp_zero)]
-#[kani::unwind(12)]
-fn c03_send_payload_and_head() {
+fn send_case(head: bool) {
     let body = sym_body(3);
     let mut res = Response::new(Status::OK).with_payload("application/x", body);
     v::response_complete(&mut res);
-    let head: bool = kani::any();
     if head { v::response_strip_content_for_head(&mut res); }
     assert!(res.headers.ContentLength() == Some("3"), "C03: Content-Length differs from the payload length");
     let (written, reserved) = send_len(res);
     let status_line = "HTTP/1.1 200 OK\r\n".len();
     assert!(written == status_line + reserved + if head { 0 } else { 3 },
         "C03: bytes sent differ from status line + reserved header block + body (none for HEAD)");
-    kani::cover!(head, "HEAD");
-    kani::cover!(!head, "GET");
+    kani::cover!(body[0] == 0, "payload starting with NUL");
+    kani::cover!(body[0] != 0, "payload starting with another byte");
 }
+
+// @verif prop=C03 tier=thorough mem=10 timeout=900 unwindset="write_unchecked_to\.\d+ :8;Iter.*IndexMap.*\.0 :8;9write_all.*8WriteAll.*\.0 :3" bounds="send: 200 with a 3-byte symbolic payload through the real Response::send (payload arm): bytes written = status line + reserved size + body; every unchecked copy inside the reserved Vec"
+#[kani::proof]
+#[kani::stub(ohkami::util::unix_timestamp, stubs::unix_timestamp_zero)]
+#[kani::unwind(12)]
+fn c03_send_payload() { send_case(false) }
+
+// @verif prop=C03 tier=thorough mem=10 timeout=900 unwindset="write_unchecked_to\.\d+ :8;Iter.*IndexMap.*\.0 :8;9write_all.*8WriteAll.*\.0 :3" bounds="send after the HEAD rule of Router::handle: headers as for GET (Content-Length kept), no body bytes"
+#[kani::proof]
+#[kani::stub(ohkami::util::unix_timestamp, stubs::unix_timestamp_zero)]
+#[kani::unwind(12)]
+fn c03_send_head() { send_case(true) }
